@@ -1,4 +1,5 @@
 use crate::common::Ctx;
+pub mod c12;
 pub mod c20;
 pub mod c06;
 pub mod c09;
@@ -34,6 +35,7 @@ pub fn dispatch(ctx: &mut Ctx) -> bool {
         "C09" => c09::run(ctx),
         "C06" => c06::run(ctx),
         "C20" => c20::run(ctx),
+        "C12" => c12::run(ctx),
         _ => return false,
     }
     true
